@@ -29,6 +29,7 @@ LEVEL_TEXT = (
     " Added: a closed pair whose steady state depends on the start values in force, a parameter that acts "
     "through a computed stoichiometric coefficient only, mappings with reversed key order. "
     ' Also: a reversible step exactly at equilibrium (zero flux) and away from it.'
+    ' Also: parameter elasticities with respect to the kinetic orders, negative orders.'
 )
 LEVEL_NOTE = "trusted: the analytic steady state of the power-law chain/branch; finite-difference tolerance constants as stated"
 RULE = (
